@@ -29,8 +29,8 @@ SumW(a, k) == SumOver(Splits(k, Len(a)), LAMBDA s : W(a, s))
 SplitMass(a, f, k, s) == <<f[k] * W(a, s), SumW(a, k)>>
 
 (* ------------------------------ "split" machine ------------------------------ *)
-VARIABLES machine, par, jdd, k, cols, todel, built
-vars == <<machine, par, jdd, k, cols, todel, built>>
+VARIABLES machine, par, jdd, k, cols, todel, built, saved
+vars == <<machine, par, jdd, k, cols, todel, built, saved>>
 
 SplitParams ==
     [a : UNION {{x \in [1..T -> 0..MaxA] : x[1] >= 1} : T \in 1..MaxT}, lo : 1..2, hi : 2..MaxK,     \* a probability may be 0 (the first one is positive)
@@ -38,7 +38,7 @@ SplitParams ==
      delta : BOOLEAN, f : [1..MaxK -> 0..MaxF]]
 InitSplit == /\ machine = "split"
              /\ par \in {p \in SplitParams : p.lo < p.hi /\ \E kk \in p.lo..(p.hi - 1) : p.f[kk] > 0}
-             /\ jdd = <<>> /\ k = par.lo /\ cols = <<>> /\ todel = <<>> /\ built = 0
+             /\ jdd = <<>> /\ k = par.lo /\ cols = <<>> /\ todel = <<>> /\ built = 0 /\ saved = <<>>
 
 Merge(old, new) == [s \in DOMAIN old \cup DOMAIN new |-> IF s \in DOMAIN new THEN new[s] ELSE old[s]]
 First(kk, T) == [i \in 1..T |-> IF i = 1 THEN kk ELSE 0]
@@ -52,7 +52,7 @@ ResolveDegree ==
            resets == PinnedReset /\ ~(par.delta /\ k # par.target)
        IN jdd' = IF resets THEN new ELSE Merge(jdd, new)
     /\ k' = k + 1
-    /\ UNCHANGED <<machine, par, cols, todel, built>>
+    /\ UNCHANGED <<machine, par, cols, todel, built, saved>>
 
 (* every resolved degree keeps its mass: sum over the splits of kk of num/den = f[kk] *)
 MassOf(kk) == LET S == {s \in DOMAIN jdd : Total(s) = kk} IN
@@ -84,12 +84,12 @@ InitCover == /\ machine = "cover" /\ \E occ \in CoverInputs :
                                        desc(i) == IF i < 1 THEN <<>> ELSE (IF i \in occ THEN <<>> ELSE <<i>>) \o desc(i - 1)
                                    IN desc(L)
                    /\ par = occ
-             /\ jdd = <<>> /\ k = 0 /\ built = 0
+             /\ jdd = <<>> /\ k = 0 /\ built = 0 /\ saved = <<>>
 DeleteColumn == /\ machine = "cover" /\ todel # <<>>
                 /\ Head(todel) \in DOMAIN cols            \* otherwise the code raises IndexError
                 /\ cols' = [i \in 1..(Len(cols) - 1) |-> IF i < Head(todel) THEN cols[i] ELSE cols[i + 1]]
                 /\ todel' = Tail(todel)
-                /\ UNCHANGED <<machine, par, jdd, k, built>>
+                /\ UNCHANGED <<machine, par, jdd, k, built, saved>>
 C08_ColumnsAreOccurringSizes ==
     (machine = "cover" /\ todel = <<>>) =>
         /\ \A i \in DOMAIN cols : cols[i] # 0
@@ -101,16 +101,30 @@ C08_DeleteNeverStuck == (machine = "cover" /\ todel # <<>>) => Head(todel) \in D
 (* a deterministic loader: create_jdd recomputes the same table from the inputs; the entry point
    JointDegreeDistribution.load_joint_degree calls create_jdd a second time *)
 LifeTables == {t \in [{<<0>>, <<1>>, <<2>>} -> 0..2] : \E x \in DOMAIN t : t[x] > 0}
-InitLife == /\ machine = "life" /\ par \in LifeTables /\ jdd = <<>> /\ built = 0
+InitLife == /\ machine = "life" /\ par \in LifeTables /\ jdd = <<>> /\ built = 0 /\ saved = <<>>
             /\ k = 0 /\ cols = <<>> /\ todel = <<>>
+(* crash point: the caller hands the loader a malformed input through its setter (a cover with a vertex-id typo, an
+   empty list, a table without positive weight), create_jdd raises, the caller puts the previous input back and keeps
+   the loader.  A rejected create_jdd changes nothing the loader reports (table, motif sizes); RejectLeaks is the named
+   deviation "part of the rejected candidate stays behind" (MC_Loaders_rejectleak.cfg must violate C06_Law). *)
+RejectLeaks == FALSE
+Yes == TRUE
+Malformed == [x \in {<<9>>} |-> 0]
+TryCandidate == /\ machine = "life" /\ built > 0 /\ built < 3 /\ saved = <<>>
+                /\ saved' = par /\ par' = Malformed
+                /\ UNCHANGED <<machine, jdd, k, cols, todel, built>>
+Restore == /\ machine = "life" /\ saved # <<>>
+           /\ par' = saved /\ saved' = <<>>
+           /\ UNCHANGED <<machine, jdd, k, cols, todel, built>>
 CreateJdd == /\ machine = "life" /\ built < 3
-             /\ jdd' = IF AccumulatingCreate /\ built > 0 THEN [x \in DOMAIN par |-> jdd[x] + par[x]] ELSE par
+             /\ jdd' = IF par = Malformed THEN (IF RejectLeaks THEN Malformed ELSE jdd)        \* raises
+                       ELSE IF AccumulatingCreate /\ built > 0 THEN [x \in DOMAIN par |-> jdd[x] + par[x]] ELSE par
              /\ built' = built + 1
-             /\ UNCHANGED <<machine, par, k, cols, todel>>
+             /\ UNCHANGED <<machine, par, k, cols, todel, saved>>
 C06_Idempotent == [][machine = "life" /\ built > 0 /\ built' > built => jdd' = jdd]_vars
-C06_Law == (machine = "life" /\ built > 0) => jdd = par
+C06_Law == (machine = "life" /\ built > 0 /\ saved = <<>>) => jdd = par
 
 Init == InitSplit \/ InitCover \/ InitLife
-Next == ResolveDegree \/ DeleteColumn \/ CreateJdd
+Next == ResolveDegree \/ DeleteColumn \/ CreateJdd \/ TryCandidate \/ Restore
 Spec == Init /\ [][Next]_vars
 =============================================================================
